@@ -111,7 +111,7 @@ func checkC20(p *Prog, r *Report) {
 			r.fail("anchor %s not found", name)
 			continue
 		}
-		eachInstr(f, func(ins ssa.Instruction) {
+		eachInstrOf(append([]*ssa.Function{f}, stringHelpers(f)...), func(ins ssa.Instruction) {
 			ia, ok := ins.(*ssa.IndexAddr)
 			if !ok {
 				return
@@ -191,16 +191,35 @@ func splitArityCovered(p *Prog, f *ssa.Function, ia *ssa.IndexAddr, key string, 
 		return false, fmt.Sprintf("parts[%d] of the api tag is read without the selector parts[0] == \"rel\" (and without a length test)", k)
 	}
 	// (2) Check is called before, on every path
-	called := mustPassInstr(f, ia, func(ins ssa.Instruction) bool {
+	isCheckCall := func(ins ssa.Instruction) bool {
 		c, ok := ins.(*ssa.Call)
 		return ok && c.Common().StaticCallee() == chk
-	})
+	}
+	called := false
+	if ia.Parent() == f {
+		called = mustPassInstr(f, ia, isCheckCall)
+	} else {
+		// the site is in a helper of f: Check ran before every call of the helper in f
+		called = true
+		nc := 0
+		eachInstr(f, func(ins ssa.Instruction) {
+			if c, ok := ins.(*ssa.Call); ok && c.Common().StaticCallee() == ia.Parent() {
+				nc++
+				if !mustPassInstr(f, c, isCheckCall) {
+					called = false
+				}
+			}
+		})
+		if nc == 0 {
+			called = false
+		}
+	}
 	if !called {
 		return false, "Check is not called on every path before the tag is indexed"
 	}
 	// (3) Check's validating branch under the same selector
 	covered := false
-	eachInstr(chk, func(ins ssa.Instruction) {
+	eachInstrOf(checkPhases(chk), func(ins ssa.Instruction) {
 		ifi, ok := ins.(*ssa.If)
 		if !ok {
 			return
@@ -471,7 +490,7 @@ func reflectSetJustifiedAt(facts []edgeFact, recv, arg ssa.Value) (bool, string)
 func checkNames(p *Prog, r *Report, chk *ssa.Function) {
 	// Check has an error return behind `json tag == ""`, behind `== "id"` and behind a seen-set lookup
 	emptyOK, idOK, dupOK := false, false, false
-	eachInstr(chk, func(ins ssa.Instruction) {
+	eachInstrOf(checkPhases(chk), func(ins ssa.Instruction) {
 		ifi, ok := ins.(*ssa.If)
 		if !ok {
 			return
@@ -557,7 +576,7 @@ func checkTypeList(p *Prog, r *Report, chk *ssa.Function) {
 		want[fmtTypeString(t)] = true
 	}
 	got := map[string]bool{}
-	eachInstr(chk, func(ins ssa.Instruction) {
+	eachInstrOf(checkPhases(chk), func(ins ssa.Instruction) {
 		bo, ok := ins.(*ssa.BinOp)
 		if !ok || bo.Op != token.EQL {
 			return
@@ -574,7 +593,7 @@ func checkTypeList(p *Prog, r *Report, chk *ssa.Function) {
 		}
 	})
 	// or a lookup of the type's String() in a package-level set of constants
-	eachInstr(chk, func(ins ssa.Instruction) {
+	eachInstrOf(checkPhases(chk), func(ins ssa.Instruction) {
 		lk, ok := ins.(*ssa.Lookup)
 		if !ok {
 			return
@@ -624,6 +643,8 @@ func reflectQuestion(cond string, st *istate, ifi *ssa.If) string {
 		return "is-attr" + it
 	case strings.Contains(cond, `,api),`) && strings.Contains(cond, `== "rel"`):
 		return "is-rel" + it
+	case strings.Contains(cond, `,api),`) && strings.Contains(cond, `!= "rel"`):
+		return "!is-rel" + it // the negated question: the answer is inverted when read
 	case strings.Contains(cond, "len(") && strings.Contains(cond, ",api)") && strings.Contains(cond, "== 3"):
 		return "has-inverse" + it
 	case strings.Contains(cond, "TYPESTR(") && strings.Contains(cond, `"[]string"`):
@@ -720,7 +741,16 @@ func exploreBuild(p *Prog, f *ssa.Function) []buildPath {
 				if strings.HasPrefix(q, "other:") || strings.HasPrefix(q, "more-fields") {
 					continue
 				}
-				bp.answer[q] = n[i+1:]
+				v := n[i+1:]
+				if strings.HasPrefix(q, "!") {
+					q = q[1:]
+					if v == "true" {
+						v = "false"
+					} else if v == "false" {
+						v = "true"
+					}
+				}
+				bp.answer[q] = v
 			}
 		}
 		// an error return is not a build
@@ -917,7 +947,7 @@ func checkFieldLoopsFull(p *Prog, r *Report, prefix string) {
 	n := 0
 	for _, f := range p.Funcs {
 		name := funcName(f)
-		if !(name == "Check" || name == "Wrap" || name == "BuildType" || strings.HasPrefix(name, "(*Wrapper).")) {
+		if !(name == "Check" || name == "Wrap" || name == "BuildType" || strings.HasPrefix(name, "(*Wrapper).") || phaseOfStructInspector(p, f)) {
 			continue
 		}
 		for _, b := range f.Blocks {
@@ -937,8 +967,12 @@ func checkFieldLoopsFull(p *Prog, r *Report, prefix string) {
 			if c == nil {
 				continue
 			}
-			sc := c.Common().StaticCallee()
-			if sc == nil || !strings.HasSuffix(fullName(sc), ".NumField") {
+			if c.Common().IsInvoke() {
+				// reflect.Type.NumField()
+				if c.Common().Method.Name() != "NumField" {
+					continue
+				}
+			} else if sc := c.Common().StaticCallee(); sc == nil || !strings.HasSuffix(fullName(sc), ".NumField") {
 				continue
 			}
 			n++
@@ -1087,7 +1121,14 @@ func checkRelFieldTypes(p *Prog, r *Report, chk *ssa.Function) {
 	}
 	inScope := map[*ssa.Function]bool{}
 	anyRel := false
-	for _, b := range chk.Blocks {
+	phases := checkPhases(chk)
+	isPhase := map[*ssa.Function]bool{}
+	var phaseBlocks []*ssa.BasicBlock
+	for _, g := range phases {
+		isPhase[g] = true
+		phaseBlocks = append(phaseBlocks, g.Blocks...)
+	}
+	for _, b := range phaseBlocks {
 		if !underRel(b) {
 			continue
 		}
@@ -1101,16 +1142,18 @@ func checkRelFieldTypes(p *Prog, r *Report, chk *ssa.Function) {
 		}
 	}
 	var fns []*ssa.Function
-	fns = append(fns, chk)
+	fns = append(fns, phases...)
 	for g := range inScope {
-		fns = append(fns, g)
+		if !isPhase[g] {
+			fns = append(fns, g)
+		}
 	}
 	eachInstrOf(fns, func(ins ssa.Instruction) {
 		bo, ok := ins.(*ssa.BinOp)
 		if !ok || (bo.Op != token.NEQ && bo.Op != token.EQL) {
 			return
 		}
-		if anyRel && ins.Parent() == chk && !underRel(ins.Block()) {
+		if anyRel && isPhase[ins.Parent()] && !underRel(ins.Block()) {
 			return
 		}
 		for _, pr := range [][2]ssa.Value{{bo.X, bo.Y}, {bo.Y, bo.X}} {
@@ -1364,4 +1407,50 @@ func checkNotFoundPanics(p *Prog, r *Report, prefix string) {
 		})
 	}
 	r.floor("explicit panics in getField/setField", n, 4)
+}
+
+// checkPhases: Check and the small helpers it calls that return an error (its
+// validation phases; Check hands their error on).
+func checkPhases(chk *ssa.Function) []*ssa.Function {
+	out := []*ssa.Function{chk}
+	seen := map[*ssa.Function]bool{chk: true}
+	eachInstr(chk, func(ins ssa.Instruction) {
+		c, ok := ins.(*ssa.Call)
+		if !ok {
+			return
+		}
+		g := c.Common().StaticCallee()
+		if g == nil || g.Blocks == nil || seen[g] || g.Pkg != chk.Pkg || g.Name() == "" || g.Name()[0] < 'a' || g.Name()[0] > 'z' {
+			return
+		}
+		seen[g] = true
+		res := g.Signature.Results()
+		if res != nil && res.Len() >= 1 && isErrorType(res.At(res.Len()-1).Type()) {
+			out = append(out, g)
+		}
+	})
+	return out
+}
+
+// phaseOfStructInspector: f is a small helper called only by Check, Wrap,
+// BuildType or a Wrapper method (a phase extracted from one of them).
+func phaseOfStructInspector(p *Prog, f *ssa.Function) bool {
+	if !smallHelper(f) || f.Parent() != nil {
+		return false
+	}
+	calls := p.cg.callers[f]
+	if len(calls) == 0 {
+		return false
+	}
+	for _, c := range calls {
+		g := c.Parent()
+		if g == nil {
+			return false
+		}
+		n := funcName(g)
+		if !(n == "Check" || n == "Wrap" || n == "BuildType" || strings.HasPrefix(n, "(*Wrapper).")) {
+			return false
+		}
+	}
+	return true
 }
